@@ -5,7 +5,7 @@
 //!   elect <this> <peer> <id>:<srv>:<nonce> ...
 //!   table <this> <op> ; <op> ; ...     with ops
 //!       open <id> <srv> | reg <id> <peer> <nonce> | cc <id> | cs <peer> <nonce>
-//!       | commit <id> | commith <id> | el <id> | rm <id> | ready <id>
+//!       | commit <id> | commith <id> | el <id> | rm <id> | fail <id> | ready <id>
 //! stdout: one Coq-syntax term per case.
 use std::collections::HashMap;
 use std::sync::{Arc, Mutex};
@@ -99,6 +99,14 @@ async fn run_table(rest: &str) -> String {
                 let m = u(w[1]);
                 if let Some(c) = cells.get(&m) {
                     node.handle_supervisor_evt(SupervisionEvent::ActorTerminated(c.clone(), None, None)).await;
+                }
+                outs.push("OUnit".into());
+            }
+            "fail" => {
+                // the session actor FAILS (handler error / panic): reported through ActorFailed only
+                let m = u(w[1]);
+                if let Some(c) = cells.get(&m) {
+                    node.handle_supervisor_evt(SupervisionEvent::ActorFailed(c.clone(), From::from("session failed"))).await;
                 }
                 outs.push("OUnit".into());
             }
